@@ -521,6 +521,8 @@ class Calls:
                     self.type_inv(ex, v.f[fn_], fs)
         elif sh[0] == 'vec' and isinstance(v, VecVal):
             ex.assume(z3.And(v.len >= 0, v.len <= S.INT_MAX))
+            if len(sh) == 3:
+                ex.assume(v.len == sh[2])       # fixed extent (T[N], std::array<T, N>)
             if sh[1][0] == 'int':
                 lo, hi = int_range(sh[1][1], sh[1][2])
                 k = z3.Int(ex.fresh_name('k!ti'))
